@@ -368,20 +368,72 @@ def parseDecl (j : Json) : P ClassDeclM := do
          body := ← (← jarr (← jfield j "fields")).toList.mapM parseBodyItem
          hook := optStrJ (jfieldD j "hook" .null) }
 
+/-- a pane class on the MRO of the class being created, as Python linearised it: a declared class, or a
+subscripted alias `P[args]` with the variables it binds -/
+inductive MroRef
+  | decl (n : String)
+  | alias (n : String) (bound : List (String × Ty))
+
+def MroRef.cls : MroRef → String
+  | .decl n => n
+  | .alias n _ => n
+
+/-- `mro`: the pane classes of `reversed(cls.__mro__[1:])` (far end first), when the harness supplies it -/
+def parseMro (j : Json) : P (Option (List MroRef)) :=
+  match jfieldD j "mro" .null with
+  | .null => pure none
+  | m => do
+    let es ← (← jarr m).toList.mapM fun e => do
+      match jfieldD e "alias" .null with
+      | .null => pure (MroRef.decl (← jstr (← jfield e "decl")))
+      | a => do
+        let q ← jarr a
+        let bound ← (← jarr q[1]!).toList.mapM fun b => do
+          let bb ← jarr b
+          pure ((← jstr bb[0]!), (← parseTy bb[1]!))
+        pure (MroRef.alias (← jstr q[0]!) bound)
+    pure (some es)
+
 /-- process a list of declarations in order; each may name an earlier one as its (subscripted) base -/
-def processAll : List ClassDeclM → List (String × ClassM) → Except ClassErr (List (String × ClassM))
+def processAll : List (ClassDeclM × Option (List MroRef)) → List (String × ClassM) → Except ClassErr (List (String × ClassM))
   | [], acc => .ok acc
-  | d :: ds, acc =>
-    let r : Except ClassErr ClassM := match d.base with
-      | none => processClass d none [] []
+  | (d, mro) :: ds, acc =>
+    let pp : Except ClassErr (List String) := match d.base with
+      | none => .ok []
       | some (bn, bargs) =>
         match acc.lookup bn with
         | none => .error (.typeError ("unknown base " ++ bn))
-        | some p =>
-          if bargs.isEmpty then processClass d (some p) [] p.params
-          else match subscriptBound p bargs with
-            | .error e => .error e
-            | .ok bound => processClass d (some p) bound (dedupS (bargs.flatMap freeVars))
+        | some p => if bargs.isEmpty then .ok p.params else
+          match subscriptBound p bargs with
+          | .error e => .error e
+          | .ok _ => .ok (dedupS (bargs.flatMap freeVars))
+    let r : Except ClassErr ClassM := match mro with
+      | some refs =>
+        -- several bases (or a chain the harness linearised): the MRO loop
+        match pp with
+        | .error e => .error e
+        | .ok pp =>
+          let entries : List MroEntry := refs.map fun r => match r with
+            | .decl n => { own := ((acc.lookup n).map (·.own)).getD [], bound := [] }
+            | .alias _ b => { own := [], bound := b }
+          let near := refs.reverse
+          let baseOpts : Opts := match near.head? with
+            | some r => ((acc.lookup r.cls).map (·.opts)).getD {}
+            | none => {}
+          let inhAttrs := near.flatMap fun r => ((acc.lookup r.cls).map (·.attrs)).getD []
+          let inhHook := near.findSome? fun r => (acc.lookup r.cls).bind (·.hook)
+          processClassMro d baseOpts (mroSpecs entries) inhAttrs inhHook pp
+      | none =>
+        match d.base with
+        | none => processClass d none [] []
+        | some (bn, bargs) =>
+          match acc.lookup bn with
+          | none => .error (.typeError ("unknown base " ++ bn))
+          | some p =>
+            if bargs.isEmpty then processClass d (some p) [] p.params
+            else match subscriptBound p bargs with
+              | .error e => .error e
+              | .ok bound => processClass d (some p) bound (dedupS (bargs.flatMap freeVars))
     match r with
     | .error e => .error e
     | .ok c => processAll ds (acc ++ [(d.name, c)])
@@ -689,7 +741,7 @@ def runOp (sc : Scen) (j : Json) : P Json := do
           | .error e => pure (Json.mkObj [("x", valJson x), ("d_raises", .str (excName e.cls))])
         | r => pure (resultJson r)
   | "process" =>
-    let decls ← (← jarr (← jfield j "decls")).toList.mapM parseDecl
+    let decls ← (← jarr (← jfield j "decls")).toList.mapM fun dj => do pure ((← parseDecl dj), (← parseMro dj))
     match processAll decls [] with
     | .error (.typeError _) => pure (Json.mkObj [("classError", "TypeError")])
     | .error (.valueError _) => pure (Json.mkObj [("classError", "ValueError")])
